@@ -584,8 +584,16 @@ func keepalive(transport Transport, interval time.Duration, quit <-chan struct{}
 			default:
 			}
 			if err := transport.Ping(); err != nil {
-				// When keepalive fails, we force close the transport. In all cases, the recv will also fail.
 				ticker.Stop()
+				// The session may have ended while this ping was under way: quit is closed before the loss is
+				// reported and before any reconnection starts. Then the failure is no news, and the transport
+				// may already hold the connection of the next session, which a Close here would tear down.
+				select {
+				case <-quit:
+					return
+				default:
+				}
+				// When keepalive fails, we force close the transport. In all cases, the recv will also fail.
 				_ = transport.Close()
 				return
 			}
